@@ -410,7 +410,7 @@ Definition cop (P : params) (g : cfg) (s : csys) (t : nat) (ch : nat) : option (
     | WMutex =>
       if Z.eqb (c_lock s) 0 then
         let x' := set_pc (set_view x (vjoin (t_view x) (c_lst s))) WBody in
-        Some (put_thr t x' (w_lock 1 s), LEv (Ev OMlock cell_wlock MoNone 0 0 0))
+        Some (put_thr t x' (w_lock 1 (w_lst (c_lst s) s)), LEv (Ev OMlock cell_wlock MoNone 0 0 0))
       else None
     | WSingle => None
     end
@@ -425,8 +425,8 @@ Definition cop (P : params) (g : cfg) (s : csys) (t : nat) (ch : nat) : option (
   | WPub after =>
     let mo := match g_rm g with RSync => mo_ws_store P | _ => if after then mo_wb_store2 P else mo_wb_store1 P end in
     Some (put_thr t (set_pc x (WUnlock true))
-            (w_wcur (t_w x) (w_wst (rel_stamp mo (t_view x)) (w_acc (c_acc s ++ [m])
-            (w_live (zupd (c_live s) (c_wcur s) true) s)))),
+            (w_wcur (t_w x) (w_acc (c_acc s ++ [m])
+            (w_live (zupd (c_live s) (c_wcur s) true) (w_wst (rel_stamp mo (t_view x)) s)))),
           LEv (Ev OStore cell_wcur mo (t_w x) 0 0))
   | WRmLock =>
     if Z.eqb (c_rmx s) 0 then
@@ -479,7 +479,7 @@ Definition cop (P : params) (g : cfg) (s : csys) (t : nat) (ch : nat) : option (
     Some (put_thr t x' s, LEv (Ev OLoad cell_wcur mo (c_wcur s) 0 0))
   | RStoreR =>
     let mo := match g_rm g with RSync => mo_rs_store P | _ => mo_rb_store P end in
-    Some (put_thr t (set_pc x RRet) (w_rcur (t_r x) (w_rst (rel_stamp mo (t_view x)) (w_R (S (c_R s)) s))),
+    Some (put_thr t (set_pc x RRet) (w_rcur (t_r x) (w_R (S (c_R s)) (w_rst (rel_stamp mo (t_view x)) s))),
           LEv (Ev OStore cell_rcur mo (t_r x) 0 0))
   | RWait =>
     if Z.eqb (c_wcur s) (t_w x) then Some (go RBlocked, LEv (Ev OFwait cell_wcur MoNone (t_w x) (c_wcur s) 1))
@@ -551,3 +551,21 @@ Definition cinit (g : cfg) (nread : nat) (ks : nat -> nat) : csys :=
 
 Definition mk_cfg (wk : wkind) (rm : rmode) (reqcap : Z) (nw maxtry : nat) : cfg :=
   {| g_wk := wk; g_rm := rm; g_cap := round_cap reqcap; g_nw := nw; g_maxtry := maxtry |}.
+
+(* memory orders that make the hand-over sound: release on every publication of write_cursor,
+   acquire on the reader's load (sync / busy modes; the mutex mode hands over through
+   read_mutex), acquire/release on the hand-written writer locks *)
+Definition chan_mo_ok (P : params) (rm : rmode) : bool :=
+  match rm with
+  | RSync => is_rel (mo_ws_store P) && is_acq (mo_rs_load P)
+  | RBusy => is_rel (mo_wb_store1 P) && is_rel (mo_wb_store2 P) && is_acq (mo_rb_load P)
+  | RMutex => true
+  end.
+Definition lock_mo_ok (P : params) (wk : wkind) : bool :=
+  match wk with
+  | WSpin => is_acq (mo_spin_tas P) && is_rel (mo_spin_clear P)
+  | WSync => is_acq (mo_sync_cas P) && is_rel (mo_sync_store P)
+  | WMutex | WSingle => true
+  end.
+Definition mo_sufficient (P : params) : bool :=
+  chan_mo_ok P RSync && chan_mo_ok P RBusy && lock_mo_ok P WSpin && lock_mo_ok P WSync.
